@@ -1599,6 +1599,232 @@ Eval vm_compute in (bad ok cases).
     return found
 
 
+# ---------------------------------------------------------------- the penalty every METHOD hands to its solver
+# For every public method with a diff_order parameter: enumerated grid diff_order x banded_solver; every solve of the
+# method is intercepted (PenalizedSystem.solve for Whittaker systems, PSpline.solve_pspline for P-splines; the 2-D solves)
+# and the system / penalty actually used is compared with D_d'D_d for the REQUESTED order d.
+PURE_LAM = {'airpls', 'arpls', 'asls', 'brpls', 'derpsalsa', 'fabc', 'iarpls', 'irsqr', 'lsrpls', 'mixture_model', 'mpls',
+            'psalsa', 'pspline_airpls', 'pspline_arpls', 'pspline_asls', 'pspline_brpls', 'pspline_derpsalsa',
+            'pspline_iarpls', 'pspline_lsrpls', 'pspline_mpls', 'pspline_psalsa'}   # every solve uses exactly lam * D_d'D_d
+# documented modifications of the penalty (only the system's order and stored diagonals are checked):
+#   aspls / pspline_aspls (alpha-weighted rows), drpls / iasls / pspline_drpls / pspline_iasls (extra first-derivative terms),
+#   jbcd (unit-lam system scaled inside the method)
+OPTIONAL_SMOOTHING = {'custom_bc', 'rubberband'}   # diff_order only shapes the optional final smoothing (lam given)
+
+
+def bands_of_dense(P, rows, lower, rev):
+    n = P.shape[0]
+    nb = rows - 1 if lower else rows // 2
+    ab = np.zeros((rows, n))
+    for rho in range(rows):
+        r = rho if lower else rho - nb
+        for j in range(max(0, -r), min(n, n - r)):
+            ab[rho, j] = P[j + r, j]
+    return ab[::-1] if rev else ab
+
+
+class _SolveTap:
+    """records (kind, used penalty or lhs, system settings) at every outermost solve"""
+
+    def __enter__(self):
+        from pybaselines import _spline_utils as su
+        bu = _imp()
+        self.bu, self.su = bu, su
+        self.rec = []
+        self.depth = 0
+        self.o_solve, self.o_sp = bu.PenalizedSystem.solve, su.PSpline.solve_pspline
+        tap = self
+
+        def info(s):
+            return dict(d=int(s.diff_order), lower=bool(s.lower), rev=bool(s.reversed), n=int(s._num_bases),
+                        orig=np.array(s.original_diagonals, dtype=float, copy=True))
+
+        def w_solve(self_, lhs, rhs, *a, **k):
+            if tap.depth == 0:
+                tap.rec.append(('solve', np.array(lhs, dtype=float, copy=True), info(self_)))
+            return tap.o_solve(self_, lhs, rhs, *a, **k)
+
+        def w_sp(self_, y, weights, penalty=None, rhs_extra=None):
+            used = self_.penalty if penalty is None else penalty
+            tap.rec.append(('pspline', np.array(used, dtype=float, copy=True), info(self_)))
+            tap.depth += 1
+            try:
+                return tap.o_sp(self_, y, weights, penalty, rhs_extra)
+            finally:
+                tap.depth -= 1
+        bu.PenalizedSystem.solve = w_solve
+        su.PSpline.solve_pspline = w_sp
+        return self
+
+    def __exit__(self, *a):
+        self.bu.PenalizedSystem.solve = self.o_solve
+        self.su.PSpline.solve_pspline = self.o_sp
+
+
+def method_solve_error(name, d, solver, kw, lam_at):
+    """runs Baseline.<name>(diff_order=d, **kw) with banded_solver=solver; None or (key, text).  lam_at(i, total) is the lam
+    the method documents for its i-th solve, or None when only the order is checked."""
+    import warnings
+    from pybaselines import Baseline
+    from . import methods as M
+    x = np.linspace(0.0, 100.0, 50)
+    y = M.make_y(np.random.default_rng(7), x)
+    with _SolveTap() as tap, warnings.catch_warnings():
+        warnings.simplefilter('ignore')
+        f = Baseline(x)
+        f.banded_solver = solver
+        try:
+            M.run_1d(name, x, y, fitter=f, diff_order=d, **kw)
+        except ValueError as exc:
+            if str(exc) == 'diff_order must be 2 or greater' and d < 2:
+                return None          # documented restriction of the method (drpls, iasls and their P-spline versions)
+            return 'method-solve:raises', f'raised ValueError: {exc}'
+        except Exception as exc:  # noqa
+            return 'method-solve:raises', f'raised {type(exc).__name__}: {exc}'
+        rec = list(tap.rec)
+    if not rec:
+        return 'method-solve:no-solve', 'no penalized solve was made'
+    check = rec[-1:] if name in OPTIONAL_SMOOTHING else rec
+    first = len(rec) - len(check)
+    for i, (kind, used, s) in enumerate(check, start=first):
+        if s['d'] != d:
+            return 'method-solve:wrong-order', (f'solve #{i} of {len(rec)} is made by a system with diff_order={s["d"]} '
+                                                f'instead of the requested {d}')
+        D = np.diff(np.eye(s['n']), d, axis=0)
+        P = D.T @ D
+        if not np.array_equal(s['orig'], bands_of_dense(P, s['orig'].shape[0], s['lower'], s['rev'])):
+            return 'method-solve:stored-diagonals', f'solve #{i}: original_diagonals of the system are not the bands of D_{d}.T @ D_{d}'
+        lam = lam_at(i, len(rec))
+        if lam is not None:
+            want = lam * bands_of_dense(P, used.shape[0], s['lower'], s['rev'])
+            a = used.copy()
+            if kind == 'solve':      # the weights were added to the main diagonal of the left-hand side
+                mi = (0 if s['lower'] else used.shape[0] // 2)
+                a[mi] = 0
+                want[mi] = 0
+            if a.shape != want.shape or not np.allclose(a, want, rtol=1e-11, atol=1e-11 * np.abs(want).max()):
+                return 'method-solve:penalty-not-lam-DtD', (f'solve #{i} of {len(rec)}: the penalty handed to the solver is not '
+                                                            f'{lam} * D_{d}.T @ D_{d} (max abs deviation {np.abs(a - want).max():.3g})')
+    return None
+
+
+def method_cells():
+    import inspect
+    from pybaselines import Baseline
+    from . import methods as M
+    cells = []
+    for name in M.method_names():
+        sig = inspect.signature(getattr(Baseline, name)).parameters
+        if 'diff_order' not in sig:
+            continue
+        for d in (1, 2, 3, 4):
+            for solver in (2, 3, 4):
+                cells.append((name, d, solver))
+    return cells
+
+
+def method_case(name, d, solver):
+    from . import methods as M
+    kw = {}
+    base = M.call_kwargs(name)
+    if name == 'mpspline':
+        kw = {'lam': 300.0, 'lam_smooth': 0.5}
+        return kw, (lambda i, n: 0.5 if i == 0 else 300.0)
+    if name in OPTIONAL_SMOOTHING:
+        kw = {'lam': 20.0}
+        return kw, (lambda i, n: 20.0)
+    if name in PURE_LAM:
+        lam = float(base.get('lam', 1e3)) * 1.5
+        return {'lam': lam}, (lambda i, n: lam)
+    return kw, (lambda i, n: None)
+
+
+def method_solves(ctx):
+    found = 0
+    for (name, d, solver) in method_cells():
+        kw, lam_at = method_case(name, d, solver)
+        ctx.case(('o-method-solve', name, d, solver), nontrivial=d != 2, kind='oracle:method-solve:' + ('pure' if lam_at(0, 1) is not None else 'order-only'))
+        e = method_solve_error(name, d, solver, kw, lam_at)
+        if e:
+            ctx.fail(e[0] + ':' + name, f'Baseline.{name}(diff_order={d}, {kw}) with banded_solver={solver}: {e[1]}',
+                     {'kind': 'method-solve', 'method': name, 'd': d, 'solver': solver})
+            found += 1
+    found += method_solves_2d(ctx)
+    return found
+
+
+def method_solves_2d(ctx):
+    """2-D: at every solve of every Baseline2D method with a diff_order parameter the system carries the requested per-axis
+    orders (M != N), and a sparse (non-eigendecomposition) penalty of a pure method is lam_r*kron(Dr'Dr, I) + lam_c*kron(I, Dc'Dc)"""
+    import inspect
+    import warnings
+    from pybaselines import Baseline2D
+    from pybaselines.two_d import _whittaker_utils as wu, _spline_utils as su2
+    from . import methods as M
+    found = 0
+    x, z, y = M.make_z2d(np.random.default_rng(5), 11, 14)
+    rec = []
+    originals = [(wu.PenalizedSystem2D, 'solve'), (wu.WhittakerSystem2D, 'solve'), (su2.PSpline2D, 'solve')]
+    saved = [(c, n, c.__dict__[n]) for c, n in originals if n in c.__dict__]
+
+    def wrap(orig):
+        def w(self_, *a, **k):
+            pen = getattr(self_, 'penalty', None)
+            rec.append((tuple(int(v) for v in np.atleast_1d(self_.diff_order)), tuple(float(v) for v in np.atleast_1d(self_.lam)),
+                        tuple(int(v) for v in self_._num_bases),
+                        np.asarray(pen.toarray(), dtype=float) if hasattr(pen, 'toarray') else None))
+            return orig(self_, *a, **k)
+        return w
+    for c, n, o in saved:
+        setattr(c, n, wrap(o))
+    try:
+        for name in M.method_names(True):
+            if 'diff_order' not in inspect.signature(getattr(Baseline2D, name)).parameters:
+                continue
+            for d in (1, 2, 3, (1, 2), (2, 1), (3, 1), (2, 3)):
+                for eig in ((None, (5, 6)) if 'num_eigens' in inspect.signature(getattr(Baseline2D, name)).parameters else (None,)):
+                    rec.clear()
+                    kw = {'diff_order': d}
+                    lam = float(M.call_kwargs(name, True).get('lam', 10)) * 1.5
+                    kw['lam'] = (lam, 2 * lam)
+                    if 'num_eigens' in inspect.signature(getattr(Baseline2D, name)).parameters:
+                        kw['num_eigens'] = eig
+                    case = {'kind': 'method-solve-2d', 'method': name, 'd': d, 'num_eigens': eig}
+                    ctx.case(('o-method-solve-2d', name, d, eig), nontrivial=d != 2, kind='oracle:method-solve-2d')
+                    try:
+                        with warnings.catch_warnings():
+                            warnings.simplefilter('ignore')
+                            M.run_2d(name, x, z, y, **kw)
+                    except ValueError as exc:
+                        if str(exc) == 'diff_order must be 2 or greater' and min(pair2(list(d) if isinstance(d, tuple) else d)) < 2:
+                            continue
+                        ctx.fail('method-solve-2d:raises:' + name, f'Baseline2D.{name}({kw}) raised ValueError: {exc}', case)
+                        found += 1
+                        continue
+                    except Exception as exc:  # noqa
+                        ctx.fail('method-solve-2d:raises:' + name, f'Baseline2D.{name}({kw}) raised {type(exc).__name__}: {exc}', case)
+                        found += 1
+                        continue
+                    dd = pair2(list(d) if isinstance(d, tuple) else d)
+                    for i, (sd, sl, nbases, pen) in enumerate(rec):
+                        if sd != tuple(dd):
+                            ctx.fail('method-solve-2d:wrong-order:' + name, f'Baseline2D.{name}({kw}): solve #{i} is made by a system with '
+                                     f'diff_order={sd} instead of {tuple(dd)}', case)
+                            found += 1
+                            break
+                        if pen is not None and name in PURE_LAM and pen.shape == (nbases[0] * nbases[1],) * 2:
+                            want = ref2(nbases[0], nbases[1], (lam, 2 * lam), dd)
+                            if not np.allclose(pen - np.diag(np.diag(pen)), want - np.diag(np.diag(want)), rtol=1e-11, atol=1e-11 * np.abs(want).max()):
+                                ctx.fail('method-solve-2d:penalty-not-kron-DtD:' + name, f'Baseline2D.{name}({kw}): at solve #{i} the penalty of the '
+                                         'system is not lam_r*kron(Dr.T@Dr, I) + lam_c*kron(I, Dc.T@Dc) off the diagonal', case)
+                                found += 1
+                                break
+    finally:
+        for c, n, o in saved:
+            setattr(c, n, o)
+    return found
+
+
 # ---------------------------------------------------------------- correspondence
 def correspondence(ctx):
     rng = ctx.rng
@@ -1964,12 +2190,13 @@ def run(ctx):
         'after every generated history; SetPen/Clobber are exercised with arrays of the current penalty shape only',
     ]
     ctx.gate()
-    ctx.translate(['GenBands', 'GenBandPurity', 'GenBandEffects', 'GenBandEffects2D'])
+    ctx.translate(['GenBands', 'GenBandPurity', 'GenBandEffects', 'GenBandEffects2D', 'GenPenaltySites'])
     ok = ctx.build_props()
     correspondence(ctx)
     pspline_correspondence(ctx)
     rejected_correspondence(ctx)
     found2d = systems2d(ctx, ctx.n(60, 600) * (1 if (ok and not ctx.broken) else 3))
+    found2d += method_solves(ctx)
     budget = 1 if (ok and not ctx.broken) else 4
     if ctx.tier == 'thorough':
         budget = max(budget, 3)
@@ -1984,7 +2211,13 @@ def run(ctx):
              'orders 1-3); the eigendecomposition mode of WhittakerSystem2D belongs to C20 and is not exercised here -- residual outside the '
              'domain N > d, noted not failed: WhittakerSystem2D(..., num_eigens=...).reset_diagonals(lam=2, diff_order=(2, 9)) on 9 columns '
              'raises a broadcasting ValueError after the assignments; add_penalty of the 2-D systems is pinned by the translator but not used '
-             'in the histories')
+             'in the histories; method-internal re-use: every public 1-D method with a diff_order parameter is run on the grid '
+             'diff_order 1-4 x banded_solver 2-4 (N = 50) and every 2-D one on 7 per-axis orders (11 x 14, with and without '
+             'eigendecomposition) with every solve intercepted; exact lam * D_d\'D_d is required for the 21 methods whose documented '
+             'penalty is exactly that (and mpspline: lam_smooth then lam), for aspls / drpls / iasls / jbcd and their P-spline versions '
+             '(documented modified penalties) only the order and stored diagonals of the solving system; optimizers '
+             '(collab_pls, optimize_extended_range, adaptive_minmax, custom_bc inner method) forward method_kwargs and are covered through '
+             'the site table only')
 
 
 def _decode_op(o):
@@ -2014,6 +2247,23 @@ def replay(rep):
         e = rhistory_error(case['hp'], case['N'], list(case['r0']), ops)
         print('replay history with rejected requests:', (e[0] + ': ' + e[1]) if e else 'property holds on this input')
         return 1 if e else 0
+    if kind == 'method-solve':
+        kw, lam_at = method_case(case['method'], case['d'], case['solver'])
+        e = method_solve_error(case['method'], case['d'], case['solver'], kw, lam_at)
+        print('replay method solve:', (e[0] + ': ' + e[1]) if e else 'property holds on this input')
+        return 1 if e else 0
+    if kind == 'method-solve-2d':
+        class _R2:
+            fails = []
+            def case(self, *a, **k):
+                pass
+            def fail(self, key, what, case):
+                self.fails.append((key, what, case))
+        rc = _R2()
+        method_solves_2d(rc)
+        hits = [w for k, w, c in rc.fails if c.get('method') == case['method'] and list(np.atleast_1d(c.get('d'))) == list(np.atleast_1d(case['d']))]
+        print('replay 2-D method solve:', hits[0] if hits else 'property holds on this input')
+        return 1 if hits else 0
     if kind == 'rhistory2d':
         def dec(o):
             return o if o == 'rdiag' else tuple(o)
